@@ -181,6 +181,9 @@ def run(ctx):
     neg = [p for p in paths if all(N.mk_not(("call", ("free", "isinstance"), (OBJ, ("free", t)), ())) in guard_set(p) for t in ("int", "str", "dict"))]
     ctx.ob("C13.R4", fi, bool(neg) and all(p.outcome[0] == "raise" and p.outcome[1].get("cls") == "MappingError" for p in neg),
            "FlagsEnum._encode refuses objects that are neither int, str nor dict", key="type refusal")
+    acc = [(p, g) for p in paths if p.returns for g in p.of("GETITEM") if g["base"] == N.selfattr("flags") and not g.raised]
+    ok = len(acc) >= 2 and all(p.retval[0] == "bin" and p.retval[1] == "|" and g["res"] in p.retval[2:] and any(x[0] == "lv" for x in p.retval[2:]) for p, g in acc)
+    ctx.ob("C13.R4", fi, ok, "FlagsEnum._encode combines the labels of the string form and of the dict form with bitwise or (labels that share bits, or are repeated, give the union of the bits)", key="label union")
     flag_test(ctx, "C13.R4")
     # table construction
     fi, paths = own_method_paths(ctx, "Enum", "__init__")
@@ -212,11 +215,12 @@ def run(ctx):
     ok = w.get("encmapping") == {mp} and d_elt is not None and d_src == ("call", ("attr", mp, "items"), (), ()) \
         and d_elt[0] == "kv" and d_elt[1][0] == "val" and d_elt[2][0] == "key"
     ctx.ob("C13.R4", fi, ok, "Mapping.__init__: encmapping is the given mapping and decmapping its inversion {v: k}", key="mapping tables inverse")
-    ctx.floor("C13.R4", 14)
+    ctx.floor("C13.R4", 15)
 
     # ---------------------------------------------------------------- R5 ExplicitError never swallowed
     n5 = check_swallow(ctx, M, S)
-    ctx.floor("C13.R5", 4)
+    nt = check_template_swallow(ctx, M, S)
+    ctx.floor("C13.R5", 11)
     for meth in ("_parse", "_build"):
         fi, paths = own_method_paths(ctx, "Error", meth)
         ok = len(paths) == 1 and paths[0].outcome[0] == "raise" and paths[0].outcome[1].get("cls") == "ExplicitError" and not paths[0].of("ASSUME")
@@ -235,6 +239,54 @@ def run(ctx):
     c2 = Ctx("C13", ctx.tier, ctl.root, model=ctl)
     check_swallow(c2, ctl, summariser(c2))
     ctx.control("C13.R5", any(not o.ok for o in c2.obligations))
+
+
+def handler_types(h):
+    if h.type is None:
+        return ("*",)
+    return tuple(ast.unparse(x).split(".")[-1] for x in (h.type.elts if isinstance(h.type, ast.Tuple) else [h.type]))
+
+
+def try_swallow_ok(S, node):
+    """A try statement of generated code: every handler that can catch ExplicitError and does not re-raise is preceded by `except ExplicitError: raise`."""
+    protected = False
+    for h in node.handlers:
+        ts = handler_types(h)
+        reraises = bool(h.body) and isinstance(h.body[-1], ast.Raise) and h.body[-1].exc is None
+        if ts == ("ExplicitError",) and reraises and len(h.body) == 1:
+            protected = True
+            continue
+        if S.catches(ts, "ExplicitError") is not False and not reraises and not protected:
+            return False
+    return True
+
+
+def check_template_swallow(ctx, M, S, rule="C13.R5"):
+    """The same discipline in the code the compiler generates: every try statement in every template variant of every emitter."""
+    from ..tmpl import TemplateEvaluator, render_variants, emitters
+    T = TemplateEvaluator(M)
+    n = 0
+    for fi, owner in emitters(M):
+        verdict = {}
+        for em in T.evaluate(fi):
+            if em.not_implemented:
+                continue
+            for r in render_variants(em):
+                for text in list(r.text_blocks) + [r.text_ret or ""]:
+                    if "try" not in text:
+                        continue
+                    try:
+                        tree = ast.parse(text)
+                    except SyntaxError:
+                        continue        # C04.R0 reports unparseable templates
+                    for node in ast.walk(tree):
+                        if isinstance(node, ast.Try) and any(S.catches(handler_types(h), "ExplicitError") is not False for h in node.handlers):
+                            key = "generated try " + "/".join("+".join(handler_types(h)) for h in node.handlers)
+                            verdict[key] = verdict.get(key, True) and try_swallow_ok(S, node)
+        for key, ok in verdict.items():
+            n += 1
+            ctx.ob(rule, fi, ok, "generated code: a handler that can swallow ExplicitError is preceded by `except ExplicitError: raise`", key=key)
+    return n
 
 
 def check_swallow(ctx, M, S, rule="C13.R5"):
